@@ -3,6 +3,7 @@ import Drv.Common
 import AcmedVerif.Model.Period
 import AcmedVerif.Model.Limiter
 import AcmedVerif.Spec.C09
+import AcmedVerif.Spec.C19
 open Lean AcmedVerif
 
 namespace Drv
@@ -89,8 +90,19 @@ def opJudgeC09 (j : Json) : Json :=
               ("failed_limits", limitsJson bad)]
 
 
+/-- Judge C19: `{"period": s, "obs": {"ok": secs} | {"reject": true} | {"panic": …}}` or `{"outcome": class}`. -/
+def opC19Judge (j : Json) : Json :=
+  if !(isNull (get j "outcome")) then
+    Json.mkObj [("holds", Spec.C19.startupHolds (Spec.C19.StartOutcome.ofString (str j "outcome")))]
+  else
+    let o := get j "obs"
+    let obs : Spec.C19.PeriodObs :=
+      if !(isNull (get o "ok")) then .accepted (nat o "ok")
+      else if bool o "reject" then .rejected else .crashed
+    Json.mkObj [("holds", Spec.C19.periodHolds (str j "period").toList obs)]
+
 def opsLimiter : List (String × (Json → Json)) :=
   [("period", opPeriod), ("rl_new", opRlNew), ("rl_case", opRlCase), ("rl_sleep", opRlSleep),
-   ("judge_c09", opJudgeC09)]
+   ("judge_c09", opJudgeC09), ("c19_judge", opC19Judge)]
 
 end Drv
